@@ -992,18 +992,20 @@ func (z *zzC06Srv) deviation(v *zzC06Vec, q zzC06Query, cased bool, want []zzC06
 		}
 	}
 
-	if vc, ok := v.VerdC[k]; cased && ok {
-		sets = append(sets, struct {
-			name string
-			outs []zzC06Out
-		}{"case", vc.Outs})
-	}
-
 	if outs, ok := v.VerdK[k]["all"]; ok {
 		sets = append(sets, struct {
 			name string
 			outs []zzC06Out
 		}{"all", outs})
+	}
+
+	// Only what no combination of the other deviations explains is put down
+	// to the letter case.
+	if vc, ok := v.VerdC[k]; cased && ok {
+		sets = append(sets, struct {
+			name string
+			outs []zzC06Out
+		}{"case", vc.Outs})
 	}
 
 	for _, extra := range []struct {
